@@ -603,7 +603,7 @@ def check_property(prop, jobs, tier, level, explanation, trusted, seed=0, quiet=
             undec = [o for o in mine if o[2] not in ("SUCCESS", "FAILURE")]
             if undec and not failed:
                 errors.append("%s: %d obligations left undecided by cbmc (status %s) behind an ignored failure" % (j.name, len(undec), undec[0][2]))
-            limit = [o for o in failed if o[1].startswith("harness:")]
+            limit = [o for o in r.obligations if o[2] == "FAILURE" and o[1].startswith("harness:")]
             if limit:
                 # the environment model of this obligation set (typed pools, dispatch cuts, ghost operands) does not cover what the code did:
                 # nothing behind that point is meaningful, so the whole set is undecided - never a violation
@@ -614,12 +614,13 @@ def check_property(prop, jobs, tier, level, explanation, trusted, seed=0, quiet=
                 errors.append("%s: unwinding bound too small for %s (undecided, not a violation)" % (j.name, ", ".join(sorted(set(o[0] for o in unw)))[:300]))
                 # other FAILUREs keep their own complete counterexample traces (paths beyond a bound are cut), so they stay violations
                 failed = [o for o in failed if o not in unw]
-            nobody = [o for o in failed if ".no-body." in o[0]]
-            failed = [o for o in failed if o not in nobody]
-            nobody = [o for o in nobody if o[0].split(".no-body.")[1] not in j.remove_bodies]
+            failed = [o for o in failed if ".no-body." not in o[0]]
+            # a call into a function the obligation set links no body for returns an arbitrary value: whatever fails behind it says nothing
+            # about the code (looked for among all obligations of the set, whoever owns them)
+            nobody = [o for o in r.obligations if o[2] == "FAILURE" and ".no-body." in o[0] and o[0].split(".no-body.")[1] not in j.remove_bodies]
             if nobody:
-                errors.append("%s: harness links no body for %s" % (j.name, ", ".join(sorted(set(o[0].split(".no-body.")[1] for o in nobody)))))
-                failed = [o for o in failed if o not in nobody]
+                errors.append("%s: harness links no body for %s - undecided, not a violation" % (j.name, ", ".join(sorted(set(o[0].split(".no-body.")[1] for o in nobody)))))
+                failed = []
             traced = 0
             seen_desc = set()
             for (n, d, s) in failed:
